@@ -417,8 +417,12 @@ def run(ctx):
         sk = ('none' if raise_site is None else 'render' if raise_site == 'render' else
               'response_mw' if raise_site.endswith('.response') else 'hook' if raise_site.startswith('hook')
               else 'responder' if raise_site == 'responder' else 'mw')
-        ctx.violate('errors.escaped', 'exception %r escaped the app callable (raised %s at %s)' % (
-            app_exc, raise_cls, raise_site), site=sk, stack=stack)
+        try:
+            shown = repr(app_exc)
+        except Exception:
+            shown = '<%s with a broken __repr__>' % type(app_exc).__name__
+        ctx.violate('errors.escaped', 'exception %s escaped the app callable (raised %s at %s)' % (
+            shown, raise_cls, raise_site), site=sk, stack=stack)
         return
     if raise_site is None or 'site' not in raised:
         if status != 200:
